@@ -648,6 +648,16 @@ fn run_ops<'db>(db: &'db dyn Vd, ctx: &Ctx, f: &mut Frame<'db>, ops: &[Op]) {
                 let out = do_call(db, ctx, f, *node, *arg);
                 f.acc = f.acc.max(out.v);
             }
+            Op::UntrackedBelow { cell, below } => {
+                if f.acc < *below {
+                    db.report_untracked_read();
+                    let v = ctx.cells.lock().unwrap()[*cell as usize];
+                    f.rec.untracked = true;
+                    f.any_read = true;
+                    f.dur = 0;
+                    f.acc = f.acc.max((v % VMOD).min(*below));
+                }
+            }
             Op::CallMax { node, arg, add, guard } => {
                 if f.acc < MAXCAP && f.acc >= *guard {
                     let out = do_call(db, ctx, f, *node, *arg);
